@@ -84,6 +84,19 @@ def gen_cases(tier):
                     args[j] = k
                     for w in (WAYS[0], WAYS[2], WAYS[4]):
                         yield mk(args, w)
+    # pairs: a closure decoded right after another closure of the same message name and signature but different
+    # declared types / side / values, from a freshly loaded extractor (state carried from one closure to the next)
+    pool = []
+    for sig_args in ([['obj', 'zz_o', 5]], [['obj', 'zz_p', 5]], [['obj', None, 5]], [['nil', 'zz_o']], [['nil', 'zz_p']], [['nil', None]],
+                     [['new', 'zz_n', 6]], [['new', 'zz_m', 6]], [['new', None, 6]],
+                     [['uint', 1], ['obj', 'zz_o', 5]], [['uint', 1], ['obj', 'zz_p', 7]], [['uint', 1], ['new', 'zz_m', 8]],
+                     [['fixed', 384]], [['fixed', -320]], [['array', [1, 2]]], [['array', []]], [['str', 'a']], [['str', None]]):
+        for w in (WAYS[0], WAYS[2], WAYS[4]):
+            pool.append(mk(sig_args, w))
+    for m1 in pool:
+        for m2 in pool:
+            if m1 is not m2 and m1['sig'] == m2['sig']:
+                yield {'pair': [m1, m2]}
     # `?` markers and version digits
     from .. import gdbenv
     for sig_args in ([REPS['o'], REPS['u']], [REPS['s'], REPS['o'], REPS['n']], [REPS['u'], ['nil', 'zz_o'], REPS['a'], REPS['h']]):
@@ -181,6 +194,15 @@ def evaluate(m):
     from backends.gdb_plugin import extract
     from backends.libwayland_debug_output import parse
     import gdb
+    if 'pair' in m:
+        import importlib
+        importlib.reload(extract)
+        evaluate(m['pair'][0])
+        ev = evaluate(m['pair'][1])
+        for v in ev.viols:
+            v.case = m
+        importlib.reload(extract)
+        return ev
     V = []
     case = m
     inf = inferior()
